@@ -1,4 +1,4 @@
-\* split steps on the shipped cache: must be rejected as well
+\* split steps on the cache as shipped before fix 678e809: must be rejected as well
 CONSTANTS
   Threads = {1, 2}
   CacheMode = "process-wide one entry"
